@@ -5,13 +5,15 @@ namespace Tmv.Drv.C05
 open Tmv Tmv.Pipeline
 
 structure St where
+  ih : Nat := 1
   blocks : List (List Tx) := []
   sys : Sys := {}
   seen : Nat := 0                       -- journal entries already printed
   ver : MempoolLock.Ver := .v0
   ms : Option MempoolLock.MS := none
 
-def chainOf (bs : List (List Tx)) : Chain := fun h => if h = 0 then [] else bs.getD (h - 1) []
+def chainOf (ih : Nat) (bs : List (List Tx)) : Chain :=
+  { ih := ih, txs := fun h => if h < ih then [] else bs.getD (h - ih) [] }
 
 def parseBlock (s : String) : Option (List Tx) :=
   if s = "e" then some [] else (s.splitOn ".").mapM String.toNat?
@@ -30,6 +32,7 @@ def showCall : Call → String
 def showOutcome : Outcome → String
   | .ok => "ok"
   | .errAppTooHigh => "err-app-too-high"
+  | .errAppTooLow => "err-app-too-low"
   | .panicStateAhead => "panic-state-ahead"
   | .panicStoreAhead => "panic-store-ahead"
   | .errNoResp => "err-no-resp"
@@ -42,7 +45,7 @@ def b01 (b : Bool) : String := if b then "1" else "0"
 
 def line (st : St) (hd : String) (s : Sys) : St × String :=
   let d := s.disk
-  let c := chainOf st.blocks
+  let c := chainOf st.ih st.blocks
   let delta := d.app.journal.drop st.seen
   let j := if delta.isEmpty then "-" else ",".intercalate (delta.map showCall)
   let resp := match d.lastResp with | some h => toString h | none => "-"
@@ -97,13 +100,14 @@ def parseRel (w : String) : Option Ev :=
   | _ => none
 
 def step (st : St) (toks : List String) : St × String :=
-  let c := chainOf st.blocks
+  let c := chainOf st.ih st.blocks
   match toks with
   | "chain" :: rest =>
-    match (kv rest "n").bind String.toNat?, (kv rest "txs").bind (fun s => (splitComma s).mapM parseBlock) with
-    | some n, some bs =>
-      if bs.length = n then ({ blocks := bs }, "ok") else (st, "bad-op")
-    | _, _ => (st, "bad-op")
+    match (kv rest "n").bind String.toNat?, (kv rest "txs").bind (fun s => (splitComma s).mapM parseBlock),
+        ((kv rest "ih").getD "1").toNat? with
+    | some n, some bs, some ih =>
+      if bs.length = n ∧ 1 ≤ ih ∧ ih ≤ 1000 then ({ ih := ih, blocks := bs }, "ok") else (st, "bad-op")
+    | _, _, _ => (st, "bad-op")
   | "start" :: rest =>
     match (kv rest "crash").bind parseCrash with
     | some k =>
@@ -119,9 +123,9 @@ def step (st : St) (toks : List String) : St × String :=
     match (kv rest "crash").bind parseCrash with
     | some k =>
       if !(st.sys.up && st.sys.live) then line st "commit out=not-up" st.sys
-      else if st.sys.disk.stateH + 1 > st.blocks.length then line st "commit out=no-block" st.sys
+      else if nxt c st.sys.disk.stateH ≥ st.ih + st.blocks.length then line st "commit out=no-block" st.sys
       else
-        match finalizeEffs c st.sys.disk (st.sys.disk.stateH + 1) with
+        match finalizeEffs c st.sys.disk (nxt c st.sys.disk.stateH) with
         | none => line st "commit out=invalid" (stepSys c st.sys (.commit k))
         | some es =>
           let crashed := match k with | some k => decide (k < es.length) | none => false
@@ -131,7 +135,12 @@ def step (st : St) (toks : List String) : St × String :=
     match (kv rest "n").bind String.toNat? with
     | some j =>
       let a := st.sys.disk.app
-      let a' : App := { (a.call .restart) with height := a.height - j, hash := a.hash.take (a.hash.length - j) }
+      -- the application comes back from a snapshot `j` commits older: it reports that snapshot's height
+      let hs := a.hash.take (a.hash.length - j)
+      let hgt := match hs.getLast? with
+        | some e => if e.1 = 0 then e.2.headD 0 else e.1
+        | none => 0
+      let a' : App := { (a.call .restart) with height := hgt, hash := hs }
       line st "rollback" { disk := { st.sys.disk with app := a' }, up := false, live := false }
     | none => (st, "bad-op")
   | "appextra" :: rest =>
@@ -145,9 +154,9 @@ def step (st : St) (toks : List String) : St × String :=
     | some h => line st "setresp" { st.sys with disk := { st.sys.disk with lastResp := some h } }
     | none => (st, "bad-op")
   | ["saveblock"] =>
-    if st.sys.disk.storeH + 1 > st.blocks.length then line st "saveblock out=no-block" st.sys
+    if nxt c st.sys.disk.storeH ≥ st.ih + st.blocks.length then line st "saveblock out=no-block" st.sys
     else line st "saveblock out=ok"
-      { disk := { (crash st.sys.disk) with storeH := st.sys.disk.storeH + 1 }, up := false, live := false }
+      { disk := { (crash st.sys.disk) with storeH := nxt c st.sys.disk.storeH }, up := false, live := false }
   | ["check"] =>
     let r := jrun c ⟨0, none⟩ st.sys.disk.app.journal
     (st, match r with
@@ -156,12 +165,13 @@ def step (st : St) (toks : List String) : St × String :=
   | "node" :: rest =>
     -- a real node run to height n, stopped at BeginBlock of n+1 (whatever crashes happened on the
     -- way): the model's prediction of the final disk and of the verdicts
-    match (kv rest "blocks").bind String.toNat?, kv rest "mp", kv rest "fails", kv rest "txs" with
-    | some n, some v, some fl, some tx =>
+    match (kv rest "blocks").bind String.toNat?, kv rest "mp", kv rest "fails", kv rest "txs",
+        ((kv rest "ih").getD "1").toNat? with
+    | some n, some v, some fl, some tx, some ih =>
       let okList (s : String) (allowX : Bool) : Bool :=
         (splitComma s).all fun t => (allowX && t == "x") || t.toNat?.isSome
-      if n < 1 ∨ n > 8 ∨ (v ≠ "v0" ∧ v ≠ "v1") ∨ !okList fl true ∨ !okList tx false then (st, "bad-op") else
-      let c0 : Chain := fun _ => []
+      if n < 1 ∨ n > 8 ∨ ih < 1 ∨ ih > 1000 ∨ (v ≠ "v0" ∧ v ≠ "v1") ∨ !okList fl true ∨ !okList tx false then (st, "bad-op") else
+      let c0 : Chain := { ih := ih, txs := fun _ => [] }
       let ops := [Op.start none] ++ List.replicate n (Op.commit none) ++ [Op.commit (some 2)]
       let s := runSys c0 genesis ops
       let s' := stepSys c0 s (.start none)
@@ -170,7 +180,7 @@ def step (st : St) (toks : List String) : St × String :=
       let d := s.disk
       (st, s!"done app={d.app.height} store={d.storeH} state={d.stateH} heq={b01 (d.app.hash == d.stateHash)} " ++
         s!"wf={b01 (journalWF c0 d.app.journal)} hs={if agree then "agree" else "differ"}")
-    | _, _, _, _ => (st, "bad-op")
+    | _, _, _, _, _ => (st, "bad-op")
   | "mp" :: rest =>
     match kv rest "ver", (kv rest "pool").bind String.toNat? with
     | some v, some p =>
